@@ -221,7 +221,7 @@ theorem ainv_step (cfg : Cfg) (st : State) (p : Prog) (h : Handle) (ev : Event)
         simp only []
         by_cases hq : q = q'
         · simp only [hq, ite_true]
-          exact ainv_settle _ _ _ _ h1 (resume_acct cfg t none g 0 0 h3 (by simpa using h2))
+          exact ainv_settle _ _ _ _ h1 (resume_acct cfg t none (g.markSet q') 0 0 h3 (by simpa [Bal, cnt] using h2))
         · simp only [hq, ite_false]
           exact Or.inr ⟨h1, h2, h3⟩
     | call k =>
